@@ -8,15 +8,16 @@ concatenation of the expanded text pieces and the CDATA contents; comments and P
 part of the document's character data, §2.4).
 
 `charsMeaning` states this on the tokeniser's events (`Xml.QEv`). How the references of one text piece expand is
-`Xml.unescape` here (the five predefined entities and character references); its agreement with §4.1 / §4.6 is
-judged separately, on every case of the correspondence run, by the independent `XmlSpec.charData`.
+`Xml.unescape` here (the five predefined entities and character references); its agreement with §4.1 / §4.6 — and
+the line-end handling of §2.11, which the reader does not do (open finding `xml-eol-not-normalised`) — is judged
+separately, on every case of the correspondence run, by the independent `XmlSpec.charData`.
 (The tree-level, fully independent version used by the driver's judge is `XmlSpec.meaning` in `Spec/Xml.lean`.)
 -/
 namespace S3V.XmlSpec
 open S3V S3V.Xml
 
-/-- the string a run of character-data events denotes; `none` if the run contains an element tag or an
-unresolvable reference -/
+/-- the string a run of character-data events denotes; `none` if the run contains an element tag, an
+unresolvable reference or bytes that are not UTF-8 -/
 def charsMeaning : List QEv → Option Bytes
   | [] => some []
   | .text raw :: r =>
@@ -25,7 +26,7 @@ def charsMeaning : List QEv → Option Bytes
       | some a, some b => some (a ++ b)
       | _, _ => none
     else none
-  | .cdata c :: r => (charsMeaning r).map (c ++ ·)
+  | .cdata c :: r => if utf8Valid c then (charsMeaning r).map (c ++ ·) else none
   | .comment :: r => charsMeaning r
   | .pi :: r => charsMeaning r
   | _ => none
